@@ -170,6 +170,19 @@ static void fz_fail(const char *key, const char *fmt, ...)
 	__builtin_trap();
 }
 
+/* MemorySanitizer builds only: an output the interface reported as delivered must have been written */
+#if defined(__has_feature)
+# if __has_feature(memory_sanitizer)
+#  define FZ_MSAN 1
+# endif
+#endif
+#ifdef FZ_MSAN
+long __msan_test_shadow(const volatile void *x, size_t size);
+# define FZ_MUST_BE_SET(var, key, what) do { if (__msan_test_shadow(&(var), sizeof(var)) != -1) fz_fail(key, "%s", what); } while (0)
+#else
+# define FZ_MUST_BE_SET(var, key, what) do { } while (0)
+#endif
+
 /* ------------------------------------------------------------------ buffers and data provider */
 
 /* exact-size heap copy: reading in[n] is a heap-buffer-overflow; n == 0 gives a valid, zero-sized block */
@@ -246,7 +259,7 @@ static int fz_long_oid(const uint8_t *d, size_t n)
 	if (fz_der_walk(d, n, 0)) return 1;
 	while (i + 2 <= n) {
 		size_t h, l;
-		if ((d[i] == 0x30 || d[i] == 0x31 || d[i] == 0x06 || d[i] == 0x88 || (d[i] & 0xe0) == 0xa0) && fz_der_hdr(d + i, n - i, &h, &l) && l > 32) {
+		if ((d[i] == 0x30 || d[i] == 0x31 || (d[i] & 0xe0) == 0xa0) && fz_der_hdr(d + i, n - i, &h, &l) && l > 32) {
 			if (fz_der_walk(d + i, h + l, 0)) return 1;
 			if (d[i] == 0x30 && l > 64) { i += h + l; continue; }	/* a whole object: nested levels were walked */
 		}
@@ -272,6 +285,24 @@ static int fz_aia_unknown(const uint8_t *d, size_t n, int from_start)
 		if (l == 8 && memcmp(d + i + 2, ad, 7) == 0 && (d[i + 9] == 1 || d[i + 9] == 2)) { i += 9; continue; }
 		return 1;
 	}
+	return 0;
+}
+
+static int fz_has_bytes(const uint8_t *d, size_t n, const uint8_t *pat, size_t k)
+{
+	size_t i;
+	for (i = 0; i + k <= n; i++) if (d[i] == pat[0] && memcmp(d + i, pat, k) == 0) return 1;
+	return 0;
+}
+
+/* the FZ_SKIP filters that apply to every target that can reach the X.509 code:
+ * oid33, aia, iap (an inhibitAnyPolicy extension id, 2.5.29.54, anywhere in the input) */
+static int fz_skip_x509_shapes(const uint8_t *d, size_t n, int aia_from_start)
+{
+	static const uint8_t iap[5] = { 0x06, 0x03, 0x55, 0x1d, 0x36 };
+	if (fz_skip("oid33") && fz_long_oid(d, n)) return 1;
+	if (fz_skip("aia") && fz_aia_unknown(d, n, aia_from_start)) return 1;
+	if (fz_skip("iap") && fz_has_bytes(d, n, iap, sizeof(iap))) return 1;
 	return 0;
 }
 
